@@ -4,6 +4,9 @@
 package main
 
 import (
+	"net"
+	"net/netip"
+	"strconv"
 	"strings"
 
 	"verifharness/cmd/c32/sauth"
@@ -13,7 +16,60 @@ import (
 var ips = []string{"10.1.2.3", "10.1.2.4", "192.168.7.7", "172.16.5.5", "::1", "2001:db8::1", "2001:db8:1::7", "::ffff:10.1.2.3", "0.0.0.0", "255.255.255.255"}
 var saEntries = []string{"10.1.2.3", "10.1.2.4", "192.168.7.7", "10.0.0.0/8", "10.1.2.0/24", "10.1.2.3/32", "172.16.0.0/12", "0.0.0.0/0",
 	"::1", "2001:db8::/32", "2001:db8::1", "::/0", "::ffff:10.1.2.3", "::ffff:0:0/96",
-	"", " 10.1.2.3", "10.1.2.3 ", "10.1.2", "10.1.2.3/33", "10.1.2.3/", "host.example.com", "*", "10.1.2.*", "010.001.002.003", "10.1.2.3/24x", "!10.1.2.3"}
+	"", " 10.1.2.3", "10.1.2.3 ", "10.1.2", "10.1.2.3/33", "10.1.2.3/", "host.example.com", "*", "10.1.2.*", "010.001.002.003", "10.1.2.3/24x", "!10.1.2.3",
+	// IPv4-mapped IPv6, zone ids, malformed / inconsistent masks
+	"::ffff:10.1.2.3/128", "::ffff:10.0.0.0/104", "::ffff:a01:203", "0:0:0:0:0:ffff:10.1.2.3", "::10.1.2.3", "fe80::1%eth0", "fe80::1%eth0/64", "::1%lo",
+	"10.1.2.3/24", "10.1.2.0/-1", "10.1.2.0/024", "10.1.2.0/ 24", "10.1.2.0/24/24", "/24", "10.1.2.0/0x18", "2001:db8::1/32", "2001:db8::/129", "2001:db8::/+32", "10.1.2.0/255.255.255.0"}
+
+// osshClass is the harness's reading of one list entry under OpenSSH's addr_match_cidr_list
+// (addrmatch.c): "m" match, "n" no match, "i" invalid. Used for the input-distribution statistics
+// only (how often the entry-level verdicts of Go's stdlib and OpenSSH differ); the check itself
+// compares the Go code with the Lean model of the Go code.
+func osshClass(peer net.IP, e string) string {
+	if e == "" || len(e) > 46+3 || strings.Trim(e, "0123456789abcdefABCDEF.:/") != "" {
+		return "i"
+	}
+	host, mask, hasMask := strings.Cut(e, "/")
+	a, err := netip.ParseAddr(host)
+	if err != nil || a.Zone() != "" {
+		return "i"
+	}
+	bits := a.BitLen()
+	if hasMask {
+		n, err := strconv.ParseUint(mask, 10, 32)
+		if err != nil || mask == "" || int(n) > bits || strings.HasPrefix(mask, "+") {
+			return "i"
+		}
+		bits = int(n)
+		if netip.PrefixFrom(a, bits).Masked().Addr() != a {
+			return "i" // "Inconsistent mask length": host bits set
+		}
+	}
+	if peer == nil {
+		return "n"
+	}
+	p, ok := netip.AddrFromSlice(peer)
+	if !ok {
+		return "n"
+	}
+	p = p.Unmap() // sshd normalises a v4-mapped peer; list entries keep their family
+	if p.Is4() != a.Is4() {
+		return "n"
+	}
+	if netip.PrefixFrom(a, bits).Contains(p) {
+		return "m"
+	}
+	return "n"
+}
+
+
+// pickEntry: half of the time one of the 14 well-formed entries, else anything from the pool
+func pickEntry(r *hx.Rand) string {
+	if r.Chance(1, 2) {
+		return saEntries[r.Intn(14)]
+	}
+	return hx.Pick(r, saEntries)
+}
 
 func randSA(r *hx.Rand, g *hx.Gen) []string {
 	switch r.Intn(8) {
@@ -21,12 +77,12 @@ func randSA(r *hx.Rand, g *hx.Gen) []string {
 		g.Stat("sa.empty-value")
 		return []string{""}
 	case 1:
-		return []string{hx.Pick(r, saEntries)}
+		return []string{pickEntry(r)}
 	}
 	n := r.Range(2, 5)
 	out := make([]string, n)
 	for i := range out {
-		out[i] = hx.Pick(r, saEntries)
+		out[i] = pickEntry(r)
 	}
 	return out
 }
@@ -46,8 +102,31 @@ func permsFor(r *hx.Rand, g *hx.Gen, addr string) map[int]sauth.PermRow {
 	m := map[int]sauth.PermRow{1: sauth.MkPerm(addr, nil, false)}
 	for id := 2; id <= 5; id++ {
 		m[id] = sauth.MkPerm(addr, randSA(r, g), false)
-		for _, o := range m[id].Oracle {
+		var ip net.IP
+		if strings.HasPrefix(addr, "tcp~") {
+			ip = net.ParseIP(addr[4:])
+		}
+		goAcc, osshAcc, osshErr, matched := false, false, false, false
+		for j, o := range m[id].Oracle {
 			g.Stat("sa.entry." + o)
+			oc := osshClass(ip, m[id].SA[j])
+			goM, goBad := o == "eq" || o == "in", o == "bad"
+			if goM != (oc == "m") || goBad != (oc == "i") {
+				g.Stat("sa.entry-verdict-differs-from-openssh.go=" + o + ",openssh=" + oc)
+			}
+			if !matched && !goBad && goM {
+				goAcc, matched = true, true
+			} else if !matched && goBad {
+				matched = true // Go stops here with an error
+			}
+			if oc == "i" {
+				osshErr = true
+			} else if oc == "m" {
+				osshAcc = true
+			}
+		}
+		if ip != nil && goAcc != (osshAcc && !osshErr) {
+			g.Stat("sa.list-verdict-differs-from-openssh")
 		}
 	}
 	return m
